@@ -106,6 +106,13 @@ func runRaceSuite(seed uint64, n int, out *Out, stats *Stats) {
 			_ = host.Pool.Transactions()
 			_ = host.Chain.Blocks(0)
 			_ = host.Ureg.Utxos(univ[1])
+			// and as peers and wallets ask: through the node's handlers, which encode what they were
+			// handed after the component's lock has been released
+			_, _ = host.ServedPoolBytes()
+			_, _ = host.ServedBlocksBytes(0)
+			for _, a := range univ {
+				_, _ = host.ServedUtxosBytes(a)
+			}
 			_ = host.Chain.LastBlockTimestamp()
 			_ = host.Chain.FirstBlockTimestamp()
 			_ = host.Chain.LastBlockTransactions()
